@@ -26,12 +26,12 @@ from transval import hx, unhx
 
 SPEC = {
     "prop": "C04",
-    "lean_targets": ["InfernoVerif.Props.C04", "InfernoVerif.Props.C04Glue", "InfernoVerif.Model.Synapse", "InfernoVerif.Drv.SynSpec", "InfernoVerif.Gen.Dispatch"],
-    "prop_files": ["InfernoVerif/Props/C04.lean", "InfernoVerif/Props/C04Glue.lean"],
+    "lean_targets": ["InfernoVerif.Props.C04", "InfernoVerif.Props.C04Glue", "InfernoVerif.Props.C04GlueProg", "InfernoVerif.Model.Synapse", "InfernoVerif.Drv.SynSpec", "InfernoVerif.Gen.Dispatch"],
+    "prop_files": ["InfernoVerif/Props/C04.lean", "InfernoVerif/Props/C04Glue.lean", "InfernoVerif/Props/C04GlueProg.lean"],
     "lemma_files": ["InfernoVerif/Lemmas/Synapse.lean"],
     "model_files": ["InfernoVerif/Model/Synapse.lean", "InfernoVerif/Model/Select.lean", "InfernoVerif/Model/Ring.lean", "InfernoVerif/Drv/SynSpec.lean",
                     "InfernoVerif/Gen/InterpolationF.lean", "InfernoVerif/Gen/InterpolationR.lean"],
-    "translate": ["Interpolation", "SynapseSites"],
+    "translate": ["Interpolation", "SynapseSites", "SynapseProg"],
     "driver_targets": ["InfernoVerif.Model.Synapse", "InfernoVerif.Drv.SynSpec", "InfernoVerif.Gen.Dispatch"],
     "assumptions": [
         "theorems are over exact reals; the driver executes the same definitions over IEEE doubles; dt, charges, delays, tolerances "
